@@ -86,6 +86,33 @@ def sweep(ctx, n):
             kw = {}
             if kind == "kwargs":
                 kw = {"position": (9.0, 8.0, 7.0), "style_color": "blue"}
+                if (i // 8) % 2 == 1:
+                    # any documented attribute value may be an override — also None where None is a value (orientation=None is the unit
+                    # rotation, pixel=None one pixel at the origin) —, in any order: the copy is what a plain copy becomes when the same
+                    # values are assigned to it one after the other
+                    o.orientation = R.random(len(o._position), rng=nps)
+                    pool = [("position", nps.uniform(-3, 3, 3)), ("position", nps.uniform(-3, 3, (rng.choice([2, 3]), 3))), ("orientation", None), ("orientation", R.random(rng=nps)),
+                            ("orientation", R.random(2, rng=nps)), ("style_color", "blue"), ("style_opacity", 0.5), ("style_label", "other")]
+                    for a_ in ("dimension", "diameter", "polarization", "current", "moment"):
+                        if getattr(o, a_, None) is not None:
+                            pool.append((a_, np.asarray(getattr(o, a_), dtype=float) * 1.5 if a_ != "current" else float(o.current) * 1.5))
+                    picks = rng.sample(pool, rng.choice([1, 2, 3]))
+                    kw = {}
+                    for k_, v_ in picks:
+                        kw[k_] = v_
+                    twin = o.copy()
+                    for k_, v_ in kw.items():
+                        if k_.startswith("style_"):
+                            twin.style.update(**{k_[6:]: v_})
+                        else:
+                            setattr(twin, k_, v_)
+                    cg = o.copy(**kw)
+                    kinds["kwargs:general"] = kinds.get("kwargs:general", 0) + 1
+                    if public_state(cg) != public_state(twin) or ("style_label" in kw and cg.style.label != "other"):
+                        bad(f"copy-kwargs:{'+'.join(kw)}", f"copy({', '.join(k_ + '=' + ('None' if v_ is None else type(v_).__name__) for k_, v_ in kw.items())}) is not a plain copy with these values assigned in this order",
+                            {"class": type(o).__name__, "keywords": list(kw)})
+                    kw = {"position": (9.0, 8.0, 7.0), "style_color": "blue"}
+                    before_orig = public_state(o)  # (the original got a new orientation above)
             c = o.copy(**kw)
             # class / attributes / style equal (apart from label and overrides)
             if kind != "kwargs" and public_state(c) != before_orig:
